@@ -24,7 +24,7 @@ MANIFEST = {
               "the escaping API' taint clause for every styled text: all are shapes of straight-line code and finite tables."),
     "note": ("Trusted: rustc front end; cansi 2.2.1 / roff 0.2 behave as documented (categorise_text_v3 segments the text, "
              "Roff::text escapes leading control characters and backslashes); version of cansi checked against Cargo.lock."),
-    "technique": "static analysis: abstract evaluation of the effect rows and of StyledStr::from over attribute cases, match-table / truth-table evaluation of the colour and brightness tables, decision-list reading, call-order and argument-wiring rules, taint (text only into roff::bold/italic/roman)",
+    "technique": "static analysis: abstract evaluation of the effect rows and of StyledStr::from over attribute cases, evaluation of the hue names on the 16 colours and of the colour requests per colour kind (symbolic payload, roff calls recorded), truth-table evaluation of the brightness test, decision-list reading, call-order rules, taint (text only into roff::bold/italic/roman)",
 }
 
 R = "anstyle_roff::"
